@@ -20,7 +20,7 @@ RULE = ("single trees: every rooted shape with 2-5 leaves (polytomies included) 
         "below them, so each edge's Poisson vector is 1e-100..1e-240; the rule is always re-evaluated in log space "
         "(log inside + scipy logpmf); in linear space a node is judged only if the winning score and every edge's "
         "largest likelihood exceed 1e-250 (otherwise the unchanged algorithm itself underflows: counted, not judged); both probability spaces, eps in "
-        "{1e-8,1e-6,1e-3,0.1}; a case is non-trivial when some node has >= 2 distinct parents or the chosen index "
+        "{1e-8,1e-6,1e-3,0.1} or (30%) {0.1,0.3,1,3} x the median grid spacing; a case is non-trivial when some node has >= 2 distinct parents or the chosen index "
         "differs from argmax(inside); distinct by content hash."
         "About half of the inputs carry 1-3 extra mutations that sit on NO edge (above the root of the local tree; valid tskit input); the references count only mutations on edges, computed from the tables.")
 ASSUME = ["scipy.stats.poisson.pmf/logpmf values enter the model as a lookup table (not modelled)",
